@@ -36,9 +36,14 @@ type World struct {
 // NewWorld wires a fresh BMC, transport and library connection. The back-off is
 // zero and the per-attempt timeout an hour, so nothing depends on the clock.
 func NewWorld(seed uint64, strict bool) *World {
+	return NewWorldBackOff(seed, strict, &backoff.ZeroBackOff{})
+}
+
+// NewWorldBackOff is NewWorld with a back-off policy of the caller's choice.
+func NewWorldBackOff(seed uint64, strict bool, bo backoff.BackOff) *World {
 	b := simbmc.New(seed)
 	n := &memnet.Net{Peer: b.Peer, Strict: strict, Poison: 0xA5}
-	t := bmc.NewV2SessionlessTransportForVerif(n, time.Hour, &backoff.ZeroBackOff{})
+	t := bmc.NewV2SessionlessTransportForVerif(n, time.Hour, bo)
 	// which contexts get the additional deadline (see Ctx) varies with the seed
 	w := &World{BMC: b, Net: n, T: t, ctxCalls: int(seed>>7) & 1}
 	n.OnSend = func(k int, d []byte) {
